@@ -129,6 +129,7 @@ def sub_history(inp):
       'retime' p.but(pattern=p.pattern.but(max_time=T)), or but(max_time=T, min_time=t) with 0 < t <= T
       'reevent' p.but(pattern=p.pattern.but(behaviour=<the behaviour of a neutral property>)) when that passes the sanity check
       'global' p.but(scope=globally) when that passes the sanity check
+      'share'  the activator's (or terminator's) event object also put in the trigger / behaviour position, when that passes the sanity check
       'renest' the same alternatives nested differently inside their disjunctions (left-leaning, balanced), built through the API
       'rename' the activator's alias renamed everywhere through but() / replace_var_reference() on the same event objects
       'member' canonical_form of a member of an earlier result
@@ -178,6 +179,19 @@ def sub_history(inp):
             st, q = core.guarded(lambda: p.but(pattern=p.pattern.but(behaviour=lib.parser('property').parse('globally: no zz9 {zq = 1}').pattern.behaviour)))
             if st == 'ok':
                 results.append(run_on(q, 'reevent'))
+        elif kind == 'share':
+            # the very same event OBJECT in two positions (only the API can do that): the activator also as the trigger
+            # or behaviour, or the terminator as the behaviour - when the sanity check lets it pass
+            def _shared():
+                src = p.scope.activator if step[1] != 'terminator' else p.scope.terminator
+                role = step[2]
+                if src is None or (role == 'trigger' and p.pattern.trigger is None):
+                    raise ValueError('no such position')
+                return p.but(pattern=p.pattern.but(**{role: src}))
+
+            st, q = core.guarded(_shared)
+            if st == 'ok':
+                results.append(run_on(q, 'share'))
         elif kind == 'global':
             st, q = core.guarded(lambda: p.but(scope=HplScope.globally()))
             if st == 'ok':
@@ -272,7 +286,10 @@ def build_history(ch):
     m, _info = gen.properties(ch, depth=ch.int(0, 1), wild_time=False, shape=shape)
     steps = []
     for _ in range(ch.int(2, 5)):
-        k = ch.pick(['same', 'twin', 'twin', 'retime', 'retime', 'reevent', 'global', 'member', 'renest', 'renest', 'renest', 'rename', 'rename'])
+        k = ch.pick(['same', 'twin', 'twin', 'retime', 'retime', 'reevent', 'global', 'member', 'renest', 'renest', 'renest', 'rename', 'rename', 'share', 'share'])
+        if k == 'share':
+            steps.append((k, ch.pick(['activator', 'activator', 'terminator']), ch.pick(['trigger', 'behaviour'])))
+            continue
         if k == 'twin':
             steps.append((k, ch.pick(['t1', 't2', 't3'])))
         elif k == 'retime':
